@@ -78,6 +78,10 @@ pub fn run_task<T: 'static>(sched: &mut Sched<'_>, f: impl std::future::Future<O
         *o2.borrow_mut() = Some(v);
     });
     sched.run_until_done(t);
+    if !sched.is_done(t) {
+        // do not keep what the unfinished future captured (connection handles) alive
+        sched.cancel(t);
+    }
     let v = out.borrow_mut().take();
     v
 }
